@@ -208,8 +208,8 @@ func checkFormat(e *env, pieces []fmtPiece, tail string, id string) {
 	if nt && judged {
 		c.NonTrivial(vp.Hash("fmt", fs, strings.Join(argTexts, ",")))
 	}
-	if c.WantSample() && judged && len(pieces) >= 2 && nt && k == kOK {
-		c.Sample(map[string]interface{}{"call": in, "result": string(want)})
+	if e.wantSample(2) && judged && len(pieces) >= 2 && nt && k == kOK {
+		e.sample(map[string]interface{}{"call": in, "result": string(want)})
 	}
 	e.hookReports(in)
 }
@@ -385,7 +385,7 @@ func runFormat(c *vp.Child) {
 	}
 	// (3) malformed conversion specifications: ISO C leaves them undefined, a
 	// Go panic escaping to the host is not an acceptable outcome.
-	for _, f := range []string{"%", "abc%", "%5", "%-", "%.", "%.3", "%#", "%0", "% ", "%+", "%5.", "%-5.3", "%d%", "%%%", "%55555", "%.55555", "%1", "%ll", "%h", "%*d", "%[1]d", "%v", "%T", "%!", "%\x00", "%\xff", "%5\x00d"} {
+	for _, f := range []string{"%", "abc%", "%5", "%-", "%.", "%.3", "%#", "%0", "% ", "%+", "%5.", "%-5.3", "%d%", "%p", "%5p", "%s", "%d", "%c", "%q", "%x%x", "%%%", "%55555", "%.55555", "%1", "%ll", "%h", "%*d", "%[1]d", "%v", "%T", "%!", "%\x00", "%\xff", "%5\x00d"} {
 		for nargs := 0; nargs <= 2; nargs++ {
 			if !mine() {
 				continue
@@ -405,7 +405,7 @@ func runFormat(c *vp.Child) {
 	}
 	// (4) PRNG multi-directive formats
 	r := c.Rand("format")
-	n := c.Pick(30000, 1200000) / c.NB
+	n := c.Pick(100000, 1200000) / c.NB
 	for i := 0; i < n; i++ {
 		np := 1 + r.Intn(4)
 		wild := r.Intn(10) == 0
